@@ -229,8 +229,13 @@ def replay(ctx, payload):
                                                       dev_inst_map=None if m is None else DeviceInstanceTypeMapper(m)))
         print("input:", line, "\nimplementation:", ans)
         return ans.startswith("RAISED") or ("|ok %d %d|" % (bits, d)) not in ans or "STR-RAISED" in ans
-    print("not a single-frame failure; re-run the quick check")
-    return True
+    print("not a single-frame failure; re-running the oracle and looking for the same key")
+    corr = __import__("common").Corr()
+    correspond(ctx, corr)
+    hits = [x for x in corr.violations if x["key"] == v.get("key")]
+    for x in hits[:3]:
+        print(x)
+    return bool(hits)
 
 
 def search(ctx, corr, broken):
